@@ -27,6 +27,7 @@ MUTANTS = [
     ("roll-pos", N, "            group_positions[key] = (pos + 1) % window", "            group_positions[key] = pos + 1", None, "_rolling_sum_or_mean_1d", "buffer position runs off the window"),
     ("roll-nodec", N, "                    group_sums[key] -= old_val\n                    group_non_null[key] -= 1", "                    group_sums[key] -= old_val", None, "_rolling_sum_or_mean_1d", "non-null counter never decremented"),
     ("roll-full", N, "            group_full = group_n_seen[key] >= window\n            if group_full:\n                old_val", "            group_full = group_n_seen[key] > window\n            if group_full:\n                old_val", None, "_rolling_sum_or_mean_1d", "window one row too long"),
+    ("roll-mean-div0", N, "                    if group_non_null[key] > 0:\n                        out[i] = group_sums[key] / group_non_null[key]", "                    if True:\n                        out[i] = group_sums[key] / group_non_null[key]", None, "_rolling_sum_or_mean_1d[float,chunked,mask=bool,mean", "min_periods=0: empty window divides by zero (numba raises)"),
     ("rmm-nullskip", N, "        if is_null(v):\n            continue\n        if want_max and v >= best", "        if want_max and v >= best", None, "min_or_max_and_position[int,want_max=False]", "integer null wins the minimum (the pinned C09 defect)"),
     ("rmm-improve", N, "                    or (want_max and val >= cur_best)\n", "                    or (want_max and val <= cur_best)\n", None, "_rolling_max_or_min_1d[float,chunked,mask=None,max", "running max replaced by smaller values"),
     ("rmm-norecalc", N, "            if group_full and need_recalc:\n", "            if group_full and need_recalc and val_is_null:\n", None, "_rolling_max_or_min_1d[float,chunked,mask=None,max", "stale extremum survives the eviction of its row"),
